@@ -108,6 +108,7 @@ func (e *Engine) VerifyFunc(fn *ssa.Function, mode string) *FuncReport {
 	p.now = c.fresh("now_entry", "Int")
 	p.assume("(and (>= " + p.now + " 0) (<= " + p.now + " 4611686018427387904))")
 	entryNow := p.now
+	c.entryNow = entryNow
 	pkg := fn.Pkg.Pkg
 	if fc != nil {
 		ec := &EvalCtx{c: c, p: p, env: env, heap: &p.heap, pkg: pkg}
